@@ -145,6 +145,24 @@ def instance_pool(types: list) -> list:
     return pool
 
 
+class _Holder:
+    """a foreign (user helper) object that merely has a member called data_type"""
+
+    def __init__(self, data_type: typing.Any):
+        self.data_type = data_type
+
+
+def foreign_values(env: typing.Any, pool: list) -> typing.List[typing.Tuple[str, typing.Any]]:
+    out = [("undefined", env.undefined(name="missing")), ("none", None), ("str", "CompositeType"), ("int", 7), ("float", 1.5), ("list", []), ("dict", {"data_type": None})]
+    import pydsdl
+
+    for v in pool:
+        if isinstance(v, pydsdl.SerializableType):
+            out.append(("object-with-data_type-member", _Holder(v)))
+            break
+    return out
+
+
 def all_classes(root: type) -> typing.List[type]:
     out = [root]
     for sub in root.__subclasses__():
@@ -416,16 +434,22 @@ def run_case(case: dict, ctx: dict) -> dict:
             loader = DSDLTemplateLoader(templates_dirs=[pathlib.Path(d) for d in dirs], package_name_for_templates="nunavut.lang.%s" % lang, search_policy=policy)
             evaluations += 1
             for n in sorted(set(user_names or {}) | builtin_names):
-                try:
-                    _, filename, _ = loader.get_source(env0, n + ".j2")
-                    origin = "d1" if filename.startswith(dirs[0] + os.sep) else "d2" if len(dirs) > 1 and filename.startswith(dirs[1] + os.sep) else "builtin"
-                except Exception:  # pylint: disable=broad-except
-                    origin = None
-                want_o = (user_names or {}).get(n)
-                if want_o is None:
-                    want_o = "builtin" if (n in builtin_names and policy == ResourceSearchPolicy.FIND_ALL) else None
-                if origin != want_o:
-                    violation("get-source-precedence:%s" % policy.name, {"template": n, "got": origin, "want": want_o, "d1": plan.get("d1"), "d2": plan.get("d2"), "lang": lang})
+                # the same template under the spellings Jinja treats as one name (empty and "." segments are dropped)
+                for spelling in ("%s.j2", "/%s.j2", "./%s.j2", "//%s.j2", "/./%s.j2"):
+                    try:
+                        _, filename, _ = loader.get_source(env0, spelling % n)
+                        origin = "d1" if filename.startswith(dirs[0] + os.sep) else "d2" if len(dirs) > 1 and filename.startswith(dirs[1] + os.sep) else "builtin"
+                    except Exception:  # pylint: disable=broad-except
+                        origin = None
+                    evaluations += 1
+                    want_o = (user_names or {}).get(n)
+                    if want_o is None:
+                        want_o = "builtin" if (n in builtin_names and policy == ResourceSearchPolicy.FIND_ALL) else None
+                    if origin != want_o:
+                        violation(
+                            "get-source-precedence:%s%s" % (policy.name, "" if spelling == "%s.j2" else ":name-spelling"),
+                            {"template": spelling % n, "got": origin, "want": want_o, "d1": plan.get("d1"), "d2": plan.get("d2"), "lang": lang},
+                        )
             # exact class template present in the user set: user wins under both policies
             for n in sorted(set(plan.get("d1") or []) | set(plan.get("d2") or [])):
                 cls = getattr(pydsdl, n, None)
@@ -446,6 +470,17 @@ def run_case(case: dict, ctx: dict) -> dict:
                     violation("instance-test-missing", {"class": c.__name__, "test": tname})
                     continue
                 fn = tests[tname]
+                # values that are no PyDSDL objects at all are members of no type class: the test answers "no" (an
+                # undefined value - `x.element_type is composite` on a non-array - included), it does not raise and does
+                # not classify a foreign object by some member it happens to have
+                for label, v in foreign_values(env0, pool):
+                    evaluations += 1
+                    try:
+                        got_f = bool(fn(v))  # type: typing.Any
+                    except Exception as ex:  # pylint: disable=broad-except
+                        got_f = "raised %s" % type(ex).__name__
+                    if got_f is not False:
+                        violation("instance-test-on-foreign-value:%s" % label, {"class": c.__name__, "test": tname, "value": label, "got": got_f})
                 for v in pool:
                     evaluations += 1
                     got = bool(fn(v))
